@@ -50,9 +50,16 @@ for qual, fn in funcs:
     if only and only not in qual:
         continue
     names = locals_of(fn)
-    if not names:
+    mode = os.environ.get('EDIT_MODE', 'rename')
+    if mode == 'rename' and not names:
         continue
-    new_fn = Rn(names).visit(ast.parse(ast.get_source_segment(src, fn)).body[0])
+    if mode == 'insert':
+        # another harmless edit: a new first statement (shifts every line number, adds a local)
+        new_fn = ast.parse(ast.get_source_segment(src, fn)).body[0]
+        k = 1 if (new_fn.body and isinstance(new_fn.body[0], ast.Expr) and isinstance(getattr(new_fn.body[0], 'value', None), ast.Constant)) else 0
+        new_fn.body[k:k] = ast.parse('_pv_dbg = None\nif _pv_dbg is not None:\n    pass').body
+    else:
+        new_fn = Rn(names).visit(ast.parse(ast.get_source_segment(src, fn)).body[0])
     ast.fix_missing_locations(new_fn)
     seg = ast.unparse(new_fn)
     indent = ' ' * fn.col_offset
